@@ -707,7 +707,7 @@ declarator(struct scope *s, struct qualtype base, char **name, struct scope **fu
 				if (e->kind == EXPRCONST && (base.type->size || !(base.type->prop & PROPVM))) {
 					if (e->type->u.basic.issigned && e->u.constant.u >> 63)
 						error(&tok.loc, "array length must be non-negative");
-					if (e->u.constant.u > ULLONG_MAX / base.type->size)
+					if (base.type->size && e->u.constant.u > ULLONG_MAX / base.type->size)
 						error(&tok.loc, "array length is too large");
 					t->size = base.type->size * e->u.constant.u;
 				} else {
